@@ -218,8 +218,8 @@ type Interp struct {
 	// read results from it (HeapAt, Elem).
 	finalHeap map[string]Val
 	heapGen   int
-	depth    int
-	stack    []*ssa.Function
+	depth     int
+	stack     []*ssa.Function
 	// OpaqueSubject is set when a branch condition was unknown because of a
 	// subject-derived value the evaluator could not follow.
 	OpaqueSubject bool
